@@ -36,6 +36,7 @@ def ob(name, props, tier="quick", cls="modular", timeout=240, functions=(), **kw
 
 # ------------------------------------------------------------------ C07
 ob("c07::no_overlap_def", "C07", cls="leaf", timeout=600, functions=["twofloat::base::no_overlap (= twofloat::no_overlap)"])
+ob("c07::canary_accepts_everything", "C07", cls="canary", timeout=300, expect="refuted")
 ob("c07::lemma_l0_valid_bits", ["C07", "C01", "C06"], cls="lemma", timeout=120)
 ob("c07::is_valid_def", "C07", cls="modular", timeout=120, functions=["TwoFloat::is_valid"])
 ob("c07::try_from_tuple", "C07", cls="modular", timeout=120, functions=["TryFrom<(f64,f64)> for TwoFloat", "From<TwoFloat> for (f64,f64)", "From<&TwoFloat> for (f64,f64)"])
@@ -69,14 +70,22 @@ for _n in ("add_tf_tf", "sub_tf_tf", "add_tf_f64", "add_f64_tf", "sub_tf_f64", "
 # ------------------------------------------------------------------ C04 / C05 (f64 divisor)
 for _n, _f in {"alg9_mul_tf_f64": "Mul<&f64> for &TwoFloat", "alg9_mul_f64_tf": "Mul<&TwoFloat> for &f64", "alg9_mul_assign_f64": "MulAssign<&f64> for TwoFloat",
                "alg12_mul_tf_tf": "Mul<&TwoFloat> for &TwoFloat", "alg12_mul_assign_tf": "MulAssign<&TwoFloat> for TwoFloat"}.items():
-    ob("c04::" + _n, ["C04", "C12"], cls="miter", timeout=600, functions=[_f], backend="cbmc+cvc5")
+    ob("c04::" + _n, ["C04", "C12", "C11"], cls="miter", timeout=600, functions=[_f], backend="cbmc+cvc5", share=_n.startswith("alg12"))
 for _n, _f in {"alg15_div_tf_f64": "Div<&f64> for &TwoFloat", "alg15_div_assign_f64": "DivAssign<&f64> for TwoFloat", "alg15_new_div": "TwoFloat::new_div"}.items():
-    ob("c04::" + _n, ["C05", "C02"], cls="miter", timeout=600, functions=[_f], backend="cbmc+cvc5")
-ob("c04::mul_zero_factor", "C04", timeout=1200, functions=["Mul/MulAssign bodies (zero factor)"])
+    ob("c04::" + _n, ["C05", "C02"], cls="miter", timeout=600, functions=[_f], backend="cbmc+cvc5", share=True)
+ob("c04::mul_zero_factor_f64", "C04", timeout=900, functions=["Mul/MulAssign bodies (zero factor)"])
+ob("c04::mul_zero_factor_tf", "C04", timeout=900, functions=["Mul/MulAssign bodies (zero factor)"])
 for _n in ("mul_by_one_f64", "mul_by_minus_one_f64", "mul_by_one_tf", "mul_one_tf_by_x", "mul_by_minus_one_tf"):
     ob("c04::" + _n, "C04", timeout=1500, functions=["Mul/MulAssign bodies (x * +-1)"])
 ob("c04::agreement::fma_model_agreement", ["C04", "C05", "C11", "C01", "C02"], cls="ground", timeout=300)
 ob("c04::mul_pow2_exact", "C04", timeout=1200, functions=["Mul bodies (x * 2^k)"])
+
+for _k in ("add", "sub", "rsub"):
+    for _d in list(range(-60, 61)):
+        ob("c03::acc4_%s_gap_%s" % (_k, ("m%d" % -_d) if _d < 0 else ("p%d" % _d)), "C03", tier="rotated", cls="leaf", timeout=5400,
+           functions=["Algorithm 4 error bound (x %s y) per exponent gap" % {"add": "+", "sub": "-", "rsub": "reversed -"}[_k]], family="acc4_" + _k, gap=_d)
+    for _s in ("far_p", "far_m"):
+        ob("c03::acc4_%s_%s" % (_k, _s), "C03", tier="rotated", cls="leaf", timeout=9000, functions=["Algorithm 4 error bound, far case"], family="acc4_" + _k, gap=1000 if _s == "far_p" else -1000)
 
 # ------------------------------------------------------------------ C02 (leaves; also carry C01, C03)
 def _nm(d):
@@ -87,6 +96,7 @@ _FTS = ["twofloat::arithmetic::fast_two_sum"]
 ob("c02::fts_cases_cover", ["C02", "C01", "C03"], cls="lemma", timeout=120)
 ob("c02::add_cases_cover", ["C02", "C01", "C03"], cls="lemma", timeout=120)
 ob("c02::exact_cases_are_contract", ["C02", "C01", "C03"], tier="thorough", cls="lemma", timeout=1800)
+ob("c02::canary_new_add_lo_zero", "C02", cls="canary", timeout=300, expect="refuted")
 ob("c02::from_f64_exact", "C02", cls="leaf", timeout=120, functions=["TwoFloat::from_f64", "From<f64> for TwoFloat"])
 ob("c02::new_mul_hi", ["C02", "C04"], cls="leaf", timeout=300, functions=["TwoFloat::new_mul"], backend="cbmc+cvc5")
 ob("c02::new_mul_valid", ["C02", "C01", "C04"], tier="thorough", cls="leaf", timeout=9000, functions=["TwoFloat::new_mul"])
@@ -118,15 +128,18 @@ for _c in ("p0", "p1", "p2", "p3", "n0", "n1", "n2", "n3"):
 _R = {"floor_exact": "TwoFloat::floor", "ceil_exact": "TwoFloat::ceil", "trunc_exact": "TwoFloat::trunc", "round_exact_int_hi": "TwoFloat::round",
       "round_exact_frac_hi": "TwoFloat::round", "fract_exact_int_hi": "TwoFloat::fract", "fract_exact_frac_hi": "TwoFloat::fract"}
 for _n, _f in _R.items():
-    ob("c08::" + _n, ["C08", "C01"], timeout=1500, functions=[_f])
+    ob("c08::" + _n, ["C08", "C01"], timeout=1500, functions=[_f], share=_n in ("floor_exact", "ceil_exact", "trunc_exact"))
 ob("c08::lemma_libm", "C08", cls="lemma", timeout=300, functions=["libm::floor", "libm::ceil", "libm::trunc", "libm::round", "libm::modf"])
 for _n in ("floor", "ceil", "trunc", "round", "fract"):
     ob("c08::lemma_%s_pair" % _n, "C08", tier="thorough", cls="lemma", timeout=7200)
 
 # ------------------------------------------------------------------ C09
 for _t in ("i8", "i16", "i32", "u8", "u16", "u32", "i64", "u64", "i128", "u128"):
-    ob("c09::from_" + _t, ["C09", "C01"], cls="leaf", timeout=900, functions=["From<%s> for TwoFloat" % _t])
     _big = _t in ("i64", "u64", "i128", "u128")
+    _wide = _t in ("i128", "u128")
+    ob("c09::from_" + _t, ["C09", "C01"], cls="leaf", tier="thorough" if _wide else "quick", timeout=3600 if _wide else 900, functions=["From<%s> for TwoFloat" % _t], share=not _wide)
+    if _big:
+        ob("c09::from_%s_valid" % _t, ["C09", "C01"], cls="leaf", timeout=900, functions=["From<%s> for TwoFloat" % _t], share=True)
     ob("c09::try_" + _t, "C09", tier="thorough" if _big else "quick", timeout=3600 if _big else 900, functions=["TryFrom<TwoFloat> for " + _t, "TryFrom<&TwoFloat> for " + _t])
     ob("c09::nonfinite_" + _t, "C09", timeout=300, functions=["TryFrom<TwoFloat> for " + _t])
     if _t not in ("i128", "u128"):
@@ -137,15 +150,21 @@ ob("c09::from_primitive_routes", "C09", cls="miter", timeout=300, functions=["Fr
 ob("c09::numcast_i64_exact", "C09", timeout=600, functions=["NumCast for TwoFloat"])
 
 # ------------------------------------------------------------------ C10
-_C10 = ['forms_add_tf_f64_h', 'forms_add_f64_tf_h', 'forms_add_tf_tf_h', 'forms_sub_tf_f64_h', 'forms_sub_f64_tf_h', 'forms_sub_tf_tf_h', 'forms_mul_tf_f64_h', 'forms_mul_f64_tf_h', 'forms_mul_tf_tf_h', 'forms_div_tf_f64_h', 'forms_div_f64_tf_h', 'forms_div_tf_tf_h', 'forms_rem_tf_f64_h', 'forms_rem_f64_tf_h', 'forms_rem_tf_tf_h', 'neg_forms', 'commute_tf_f64', 'sub_is_add_neg_tf_tf', 'sub_is_add_neg_tf_f64', 'add_commutes_tf_tf', 'mul_sign_symmetry', 'sum_is_left_fold', 'deleg_float_exp', 'deleg_float_exp2', 'deleg_float_exp_m1', 'deleg_float_ln', 'deleg_float_ln_1p', 'deleg_float_log2', 'deleg_float_log10', 'deleg_float_sqrt', 'deleg_float_cbrt', 'deleg_float_sin', 'deleg_float_cos', 'deleg_float_tan', 'deleg_float_asin', 'deleg_float_acos', 'deleg_float_atan', 'deleg_float_sinh', 'deleg_float_cosh', 'deleg_float_tanh', 'deleg_float_asinh', 'deleg_float_acosh', 'deleg_float_atanh', 'deleg_float_powf', 'deleg_float_log', 'deleg_float_hypot', 'deleg_float_atan2', 'deleg_float_sin_cos', 'deleg_powi', 'deleg_recip_inv', 'deleg_pow_i8', 'deleg_pow_i16', 'deleg_pow_u8', 'deleg_pow_u16', 'deleg_pow_tf', 'deleg_pow_f64', 'deleg_float_floor', 'deleg_float_ceil', 'deleg_float_round', 'deleg_float_trunc', 'deleg_float_fract', 'deleg_float_to_degrees', 'deleg_float_to_radians', 'deleg_sign_minmax', 'deleg_mul_add_abs_sub', 'deleg_constants']
+_C10 = ['forms_add_tf_f64_h', 'forms_add_f64_tf_h', 'forms_add_tf_tf_h', 'forms_sub_tf_f64_h', 'forms_sub_f64_tf_h', 'forms_sub_tf_tf_h', 'forms_mul_tf_f64_h', 'forms_mul_f64_tf_h', 'forms_mul_tf_tf_h', 'forms_div_tf_f64_h', 'forms_div_f64_tf_h', 'forms_div_tf_tf_h', 'forms_rem_tf_f64_h', 'forms_rem_f64_tf_h', 'forms_rem_tf_tf_h', 'neg_forms', 'commute_tf_f64', 'sub_is_add_neg_tf_tf', 'sub_is_add_neg_tf_f64', 'add_commutes_tf_tf', 'mul_sign_symmetry', 'sum_is_left_fold', 'deleg_float_exp', 'deleg_float_exp2', 'deleg_float_exp_m1', 'deleg_float_ln', 'deleg_float_ln_1p', 'deleg_float_log2', 'deleg_float_log10', 'deleg_float_sqrt', 'deleg_float_cbrt', 'deleg_float_sin', 'deleg_float_cos', 'deleg_float_tan', 'deleg_float_asin', 'deleg_float_acos', 'deleg_float_atan', 'deleg_float_sinh', 'deleg_float_cosh', 'deleg_float_tanh', 'deleg_float_asinh', 'deleg_float_acosh', 'deleg_float_atanh', 'deleg_float_powf', 'deleg_float_log', 'deleg_float_hypot', 'deleg_float_atan2', 'deleg_float_sin_cos', 'deleg_powi', 'deleg_recip_inv', 'deleg_pow_i8', 'deleg_pow_i16', 'deleg_pow_u8', 'deleg_pow_u16', 'deleg_pow_tf', 'deleg_pow_f64', 'deleg_float_floor', 'deleg_float_ceil', 'deleg_float_round', 'deleg_float_trunc', 'deleg_float_fract', 'deleg_float_to_degrees', 'deleg_float_to_radians', 'deleg_sign_minmax', 'deleg_mul_add_abs_sub', 'deleg_constants', 'identities_sample', 'negation_identities_bitwise', 'sum_is_left_fold_sample']
 _C10_THOROUGH = {"sub_is_add_neg_tf_tf", "sub_is_add_neg_tf_f64", "add_commutes_tf_tf", "mul_sign_symmetry", "sum_is_left_fold"}
 for _n in _C10:
+    if _n in ("identities_sample", "negation_identities_bitwise", "sum_is_left_fold_sample"):
+        continue
     _cls = "miter"
     _be = "cbmc+cvc5" if (_n.startswith("forms_") and "rem" not in _n) or _n in ("neg_forms", "commute_tf_f64", "deleg_mul_add_abs_sub") or _n in _C10_THOROUGH else "cbmc+kissat"
     if _n in _C10_THOROUGH:
         continue  # identities that do not close (cvc5 900 s time-out, CBMC status 6 on the iterator fold): not registered, listed as undecided clauses
     ob("c10::" + _n, "C10", cls=_cls, timeout=900 if _n.startswith("forms_") or _n == "deleg_mul_add_abs_sub" else 300, backend=_be,
        functions=["operator forms / num_traits delegation: " + _n])
+
+ob("c10::identities_sample", "C10", cls="ground", native=True, functions=["Add/Sub/Mul/Neg impls (algebraic identities, 14x14 structured operand pairs)"])
+ob("c10::negation_identities_bitwise", "C10", cls="ground", native=True, functions=["Sub/Mul/Neg impls (negation identities, bit for bit)"])
+ob("c10::sum_is_left_fold_sample", ["C10", "C03"], cls="ground", native=True, functions=["Sum<T> for TwoFloat"])
 
 # ------------------------------------------------------------------ C12
 ob("c12::consts_correctly_rounded", "C12", cls="ground", timeout=300, functions=["twofloat::consts::* (19 constants)"])
@@ -193,7 +212,8 @@ ob("c16::solver::hyperbolic_total", "C18", checks="default", timeout=900, functi
 ob("c05::recip_is_one_over_x", "C05", cls="miter", timeout=900, backend="cbmc+cvc5", functions=["TwoFloat::recip"])
 ob("c05::div_f64_exact_clauses", "C05", timeout=600, functions=["Div<&f64> for &TwoFloat", "DivAssign<&f64> for TwoFloat"])
 ob("c05::div_f64_pow2_exact", "C05", timeout=600, functions=["Div<&f64> for &TwoFloat"])
-ob("c05::div_zero_numerator", "C05", timeout=2400, functions=["Div bodies (zero numerator)"])
+ob("c05::div_zero_numerator_f64", "C05", timeout=900, functions=["Div<&f64> for &TwoFloat", "DivAssign<&f64> for TwoFloat"])
+ob("c05::div_zero_numerator_tf", "C05", tier="thorough", timeout=2400, functions=["Div<&TwoFloat> for &TwoFloat", "Div<&TwoFloat> for &f64"])
 ob("c05::long_division_exact_points", "C05", cls="ground", native=True, functions=["Div<&TwoFloat> for &TwoFloat", "DivAssign<&TwoFloat> for TwoFloat", "TwoFloat::recip"])
 ob("c19::integers_exact", "C19", cls="ground", native=True, functions=["Rem/RemAssign impls", "TwoFloat::div_euclid", "TwoFloat::rem_euclid"])
 ob("c19::big_integers_exact", "C19", cls="ground", native=True, functions=["Rem impls", "TwoFloat::div_euclid", "TwoFloat::rem_euclid"])
@@ -208,6 +228,8 @@ ob("c20::sd::deserialize_seq", "C20", features="serde", timeout=600, functions=[
 ob("c20::sd::deserialize_map", "C20", features="serde", timeout=900, functions=["Deserialize for TwoFloat (visit_map, Field)"], bound_note="map length <= 3 (unwinding assertion on)")
 ob("c20::sd::serialize_struct", "C20", features="serde", timeout=300, functions=["Serialize for TwoFloat"])
 ob("c20::text_format_sample", "C20", cls="ground", native=True, functions=["Display / LowerExp / UpperExp for TwoFloat"])
+
+ob("scan::std_dependent_items", "C11", cls="ground", scan=True, kani_only=True, functions=["inventory: cfg(feature = \"std\") / target-dependent items outside test modules"])
 
 COMMON_ASSUMPTIONS = [
     "Kani/CBMC bit-precise model of IEEE-754 binary64 (+,-,*,/,fma,casts,comparisons) equals the target's; one NaN (payload/sign of NaN not modelled)",
@@ -229,7 +251,16 @@ def select(prop, tier, seed=0):
     """obligations run by `check <prop> --tier <tier>`: the rows owned by the property (first entry of
     props).  Rows that merely serve the property are discharged by their owner's check and are listed
     in the evidence under `rests_on`."""
-    rows = [o for o in ALL if (o["props"][0] == prop or (o.get("native") and prop in o["props"])) and (tier == "thorough" or o["tier"] == "quick")]
+    rows = [o for o in ALL if (o["props"][0] == prop or ((o.get("native") or o.get("share")) and prop in o["props"])) and o["tier"] != "rotated" and (tier == "thorough" or o["tier"] == "quick")]
+    if tier == "thorough":
+        # seed-rotated sample of the ghost-value accuracy obligations (tier "rotated"): gaps 0, +-1, +-53 always,
+        # plus 7 seeded gaps per algorithm variant; the evidence lists exactly the (variant, gap) pairs discharged
+        rng = random.Random(seed)
+        for fam in sorted({o.get("family") for o in ALL if o["tier"] == "rotated" and o["props"][0] == prop}):
+            cand = [o for o in ALL if o.get("family") == fam and o["tier"] == "rotated"]
+            fixed = [o for o in cand if o["gap"] in (0, 1, -1, 53, -53)]
+            rest = [o for o in cand if o not in fixed and abs(o["gap"]) <= 60]
+            rows += fixed + rng.sample(rest, min(7, len(rest)))
     if tier == "quick":
         # seeded sample of the per-gap leaf obligations: 2 per family among those measured <= 160 s
         rng = random.Random(seed)
